@@ -360,8 +360,14 @@ func (i *interpreter) materialise1(p *lazyPending, T types.Type) value {
 		}
 		cands := i.universeFor(T, p.depth)
 		if p.only != nil {
+			// the restriction narrows the universe of this depth (beyond the depth bound that is
+			// the childless stand-ins: the exploration must stay finite)
+			pool := i.implementers(T)
+			if typePositions[p.key] {
+				pool = cands
+			}
 			var keep []types.Type
-			for _, c := range i.implementers(T) {
+			for _, c := range pool {
 				for _, o := range p.only {
 					if c.String() == o {
 						keep = append(keep, c)
